@@ -234,8 +234,11 @@ def execute(sc, sim):
                    True)
         pre[2] = "/sim/w/pre/p"
         ops.insert(0, ["cli", pre])
-    obs = sim.run(dict(base, sessions=[{"id": "c", "ops": ops, "on_error": "continue"}]))
+    spec = dict(base, sessions=[{"id": "c", "ops": ops, "on_error": "continue"}])
+    obs = sim.run(spec)
     st.add_obs(obs)
+    if sc["io_seed"] % 50 == 0:
+        cm.real_crosscheck(sim, st, spec, obs)
     if len(obs["sessions"]["c"]) != len(ops) and not obs.get("hang"):
         return done(sc, st, [cm.viol("C17/second-run-missing")])
     rec = obs["sessions"]["c"][-1] if obs["sessions"]["c"] else {"exc": "hang"}
